@@ -324,6 +324,43 @@ def c04_arith(R):
                 verify(R, "C04.arith", fn, run, label=f"{kind}{n} {sp} {kind}{n}")
                 if kind == "float" and sp in "+-":
                     verify(R, "C04.arith", fn, vm_c.ieee(run), label=f"{kind}{n} {sp} {kind}{n},ieee")
+        # an int vector divided by an int scalar / vector divides like ints do: truncation toward zero, per component
+        for src, kwf, wantf, lab in (
+                (f"export function f(int{n} a, int s) -> int{n} {{ return (a / s); }}", lambda ctx: dict(a=symvec(ctx, "a", n, "i"), s=ctx.int("s")),
+                 lambda v: [irsem.binary("DIV", x.t, v["s"].t, True) for x in v["a"]], f"int{n} / int"),
+                (f"export function f(int{n} a, int{n} b) -> int{n} {{ return (a / b); }}", lambda ctx: dict(a=symvec(ctx, "a", n, "i"), b=symvec(ctx, "b", n, "i")),
+                 lambda v: [irsem.binary("DIV", x.t, y.t, True) for x, y in zip(v["a"], v["b"])], f"int{n} / int{n}")):
+            r, exc = program(src)
+            if r is None:
+                R.ok(f"C04.arith[{lab}]", fn, detail=f"rejected ({type(exc).__name__})")
+                continue
+
+            def run_idiv(ctx, r=r, kwf=kwf, wantf=wantf):
+                v = kwf(ctx)
+                for d in ([v["s"]] if "s" in v else v["b"]):
+                    ctx.assume(d != 0)
+                for x in v["a"] + ([v["s"]] if "s" in v else v["b"]):
+                    ctx.assume(irsem.in_i32(x.t))
+                import copy
+                got, _ = invoke(r, "f", **copy.deepcopy(v))
+                return [("value", vm_c.veq(got, wantf(v)))]
+
+            verify(R, "C04.arith", fn, run_idiv, lambda m, c, src=src, n=n: script("""
+                import io, contextlib
+                from nsl import Compiler, LinearIR, VM
+                src, n = {{src}}, {{n}}
+                with contextlib.redirect_stdout(io.StringIO()):
+                    r = Compiler.Compiler().Compile(src)
+                l = LinearIR.Linker(); l.AddModule(r.IRModule)
+                a = [1, -7, 3, 7][:n]
+                kw = dict(a=a, s=2) if 'int s' in src else dict(a=a, b=[2, 2, -2, 4][:n])
+                got = VM.VirtualMachine(l.Link()).Invoke('f', **kw)
+                def tdiv(x, y):
+                    q = abs(x) // abs(y); return -q if (x < 0) != (y < 0) else q
+                want = [tdiv(x, kw['s']) for x in a] if 's' in kw else [tdiv(x, y) for x, y in zip(a, kw['b'])]
+                print(src, kw, '->', got, '; integer division truncates toward zero:', want)
+                if got != want: print('REPLAY-CONFIRMED')
+                """, src=src, n=n), label=lab)
         # operands of different component types: the int vector is converted, then the operator is applied component-wise -- in both orders
         for sp, opn in (("+", "ADD"), ("-", "SUB"), ("<", "CMP_LT"), (">=", "CMP_GE")):
             for order in ("int-float", "float-int"):
